@@ -12,6 +12,8 @@
  *   enccb <syn> <k> <val>     asn_encode with a callback failing (only) at invocation index k (k = -1: never)
  *                             -> ret=<n> errno=<E> chunks=<s0,s1,...|-> after=<invocations after k> delivered=<hex of the
  *                                bytes accepted before invocation k (all accepted bytes when k = -1)>
+ * A callback that has been invoked 2^20 times refuses the data and the op prints `HANG runaway ...` (an encoder looping on
+ * its callback would otherwise eat all memory before any timeout fires).
  * Every line is self-contained (run_c_bisect attributes an abort/sanitizer report to its line). */
 #include "gen_common.h"
 #if defined(__SANITIZE_ADDRESS__)
@@ -32,9 +34,15 @@ struct rec {
     long fail_at;                         /* invocation index that returns -1; -1 = never */
     size_t before_len;                    /* accepted bytes before invocation fail_at */
     size_t after;                         /* invocations after fail_at */
+    int runaway;                          /* more than RUNAWAY_CALLS invocations: the encoder does not terminate */
+    uint8_t last[16]; size_t last_n;      /* head of the most recent chunk */
 };
+#define RUNAWAY_CALLS (1u << 20)
 static int rec_cb(const void *data, size_t size, void *key) {
     struct rec *r = key;
+    if(r->n >= RUNAWAY_CALLS) { r->runaway = 1; return -1; }      /* refusing the data is the only way to stop such a loop */
+    r->last_n = size < sizeof r->last ? size : sizeof r->last;
+    if(r->last_n) memcpy(r->last, data, r->last_n);
     if(r->n == r->ncap) {
         r->ncap = r->ncap ? 2 * r->ncap : 64;
         r->sizes = realloc(r->sizes, r->ncap * sizeof *r->sizes);
@@ -81,6 +89,7 @@ int ops_gen_c07(int argc, char **argv, FILE *out) {
         else have = -1;
         if(have < 0) fputs("bad-op", out);
         else if(!have) fputs("noencoder", out);
+        else if(r.runaway) { fputs("HANG runaway: more than 2^20 callback invocations, last chunk ", out); hx_print(out, r.last, r.last_n); }
         else {
             const char *ft = "null";
             if(er.encoded == -1 && er.failed_type) {
@@ -114,6 +123,7 @@ int ops_gen_c07(int argc, char **argv, FILE *out) {
         /* reference: what asn_encode delivers to a callback */
         struct rec r; memset(&r, 0, sizeof r); r.fail_at = -1;
         asn_enc_rval_t e0 = asn_encode(0, syn, cur_td, st, rec_cb, &r);
+        if(r.runaway) { fputs("HANG runaway: more than 2^20 callback invocations, last chunk ", out); hx_print(out, r.last, r.last_n); rec_free(&r); goto done; }
         errno = 0;
         asn_encode_to_new_buffer_result_t nb = asn_encode_to_new_buffer(0, syn, cur_td, st);
         int e = errno;
@@ -137,6 +147,7 @@ int ops_gen_c07(int argc, char **argv, FILE *out) {
         errno = 0;
         asn_enc_rval_t er = asn_encode(0, syn, cur_td, st, rec_cb, &r);
         int e = errno;
+        if(r.runaway) { fputs("HANG runaway: more than 2^20 callback invocations, last chunk ", out); hx_print(out, r.last, r.last_n); rec_free(&r); goto done; }
         fprintf(out, "ret=%zd errno=%s chunks=", er.encoded, c07_errno(e));
         if(r.n == 0) fputc('-', out);
         for(size_t i = 0; i < r.n; i++) fprintf(out, i ? ",%zu" : "%zu", r.sizes[i]);
@@ -145,6 +156,7 @@ int ops_gen_c07(int argc, char **argv, FILE *out) {
         hx_print(out, r.bytes, failed ? r.before_len : r.len);
         rec_free(&r);
     }
+done:
     ASN_STRUCT_FREE(*cur_td, st); free(v);
     return 1;
 }
